@@ -152,7 +152,8 @@ func (s Slice) Interface() any {
 	for _, element := range s.value {
 		elementType = unionType(elementType, TypeOf(KindOf(element)))
 	}
-	if elementType == nil {
+	if elementType == nil || elementType.Kind() == reflect.Uint8 {
+		// A []uint8 is a []byte, which encodes as Binary and not as a Slice of Uint8.
 		elementType = types[KindUnknown]
 	}
 
